@@ -32,7 +32,7 @@ APP_SRCS = ("app/texel/enginecontrol.cpp", "app/texel/uciprotocol.cpp")
 TB_FENS = {  # positions suitable for on-demand TB generation (3 men, generated in well under 0.4 s)
     "8/8/8/4k3/8/8/3QK3/8 w - - 0 1": 101,
     "8/8/3k4/8/8/8/3RK3/8 b - - 0 1": 102,
-    "8/8/3k4/8/8/8/3RK3/8 w - - 0 1": 102,
+    "8/8/3k4/8/8/8/4KR2/8 w - - 0 1": 102,
     "8/8/8/4k3/8/8/3QK3/8 b - - 0 1": 101,
 }
 
